@@ -253,6 +253,12 @@ package server
 //@ structural C10: refs congestion.UseConfigured in (*h3sHandler).ServeHTTP
 //@ structural C10: refs congestion.UseBBR in nowhere
 //@ structural C10: calls (*Conn).SetCongestionControl in nowhere
+// C02: the request handed to the masquerade handler is the request as received: this package
+// never edits a header map itself (the only header writes are those of the accepted auth
+// response, made by protocol.AuthResponseToHeader under the guards above)
+//@ structural C02: calls (http.Header).Del in nowhere
+//@ structural C02: calls (http.Header).Set in nowhere
+//@ structural C02: calls (http.Header).Add in nowhere
 //@ structural C01: stores h3sHandler.authenticated in (*h3sHandler).ServeHTTP value true
 //@ structural C01: allocs h3sHandler in newH3sHandler
 //@ structural C01: refs newH3sHandler in (*serverImpl).handleClient
